@@ -438,3 +438,109 @@ def px8(ctx: Ctx):
             ctx.ob(rule, f.qual, f"{nm}[{show(e.index)[:30]}] = ...", hi < local[nm],
                    f"store into the {local[nm]}-element local array `{nm}` at an index only known to be <= "
                    f"{hi if hi < (1 << 62) else 'unbounded'}", where(f, e.node), sample=f"index <= {hi} < {local[nm]}")
+
+
+C_BITS = {"uint8_t": 8, "char": 8, "unsigned char": 8, "signed char": 8, "int8_t": 8, "uint16_t": 16, "int16_t": 16, "short": 16,
+          "unsigned short": 16, "Py_UCS1": 8, "Py_UCS2": 16}
+WIDE = {"Py_UCS4", "uint32_t", "int", "unsigned int", "long", "unsigned long", "Py_ssize_t", "size_t", "uint64_t", "int64_t", "Py_UCS2", "uint16_t"}
+UNIT_READS = {"PyUnicode_READ", "PyUnicode_READ_CHAR", "ord"}
+
+
+def px9(ctx: Ctx):
+    """PX9: an input code unit is never squeezed into a narrower C type. A value read from the text (PyUnicode_READ) or received
+    as a code-point parameter has up to 21 bits; C converts it silently when it is assigned to / passed as uint8_t, char or
+    uint16_t and keeps the low bits, so U+0434 becomes '4'. Such a conversion is accepted only on a path that bounds the value
+    within the narrow type. Values the module computes itself (helper results, masks and shifts) are not judged here."""
+    model = ctx.model
+    model.load_pyx()
+    rule = "PX9"
+    ctx.rule(rule, floor=1, what="code units read from the text reach narrower C types only under a bound")
+    funcs = list(model.all_funcs(("pyx",), helpers=True))
+    byname = {f.name: f for f in funcs if f.cls is None}
+    n = 0
+
+    methods = {f.name: f for f in funcs if f.cls is not None}
+
+    def callee_of(e):
+        if e.func[0] == "global" and e.func[2] in byname:
+            return byname[e.func[2]], 0
+        if e.func[0] == "attr" and e.func[1] == ("param", "self") and e.func[2] in methods:
+            return methods[e.func[2]], 1        # skip `self`
+        return None, 0
+
+    # which parameters carry a code unit of the text: passed a PyUnicode_READ result at some call site, directly or through a
+    # parameter that does (a parameter fed only with values the module computed - a restored octet - is not one)
+    unit_params = set()
+    results = {f.qual: analyze(model, f) for f in funcs}
+    grew = True
+    while grew:
+        grew = False
+        for f in funcs:
+            for e in results[f.qual].by_kind("call"):
+                callee, skip = callee_of(e)
+                if callee is None:
+                    continue
+                for pn, a in zip(callee.params[skip:], e.args):
+                    src = (a[0] == "call" and a[1][-1] in UNIT_READS) or (a[0] == "param" and (f.qual, a[1]) in unit_params)
+                    if src and (callee.qual, pn) not in unit_params:
+                        unit_params.add((callee.qual, pn))
+                        grew = True
+
+    def unit_source(t, fq):
+        if t[0] == "call" and t[1][-1] in UNIT_READS:
+            return True
+        return t[0] == "param" and (fq, t[1]) in unit_params
+
+    def bounded(t, bits, facts):
+        lim = 1 << bits
+        for k, v in facts.items():
+            if k[0] != "cmp" or t not in (k[2], k[3]):
+                continue
+            other = k[3] if k[2] == t else k[2]
+            if other[0] != "const" or not isinstance(other[1], (int, str)) or isinstance(other[1], bool):
+                continue
+            c = ord(other[1]) if isinstance(other[1], str) and len(other[1]) == 1 else other[1]
+            if not isinstance(c, int):
+                continue
+            left = k[2] == t
+            op = k[1]
+            if (op == "Eq" and v is True) or (op == "NotEq" and v is False):
+                if 0 <= c < lim:
+                    return True
+            # t < c / t <= c true, or c > t / c >= t true, or their negations the other way round
+            if left and ((op == "Lt" and v is True and c <= lim) or (op == "LtE" and v is True and c < lim) or
+                         (op == "GtE" and v is False and c <= lim) or (op == "Gt" and v is False and c < lim)):
+                return True
+            if not left and ((op == "Gt" and v is True and c <= lim) or (op == "GtE" and v is True and c < lim) or
+                             (op == "LtE" and v is False and c <= lim) or (op == "Lt" and v is False and c < lim)):
+                return True
+        return False
+
+    for f in funcs:
+        meta = getattr(f.node, "_cy", {})
+        env = dict(meta.get("argtypes", {}))
+        env.update(meta.get("locals", {}))
+        r = results[f.qual]
+        sites = {}
+        for e in r.events:
+            if e.kind == "assign" and env.get(e.name) in C_BITS:
+                sites.setdefault((id(e.node), e.name), [e.node, f"{env[e.name]} {e.name} = {show(e.value)[:50]}", env[e.name], []])[3].append((e.value, e.state))
+            elif e.kind == "call" and callee_of(e)[0] is not None:
+                callee, skip = callee_of(e)
+                ptypes = list(getattr(callee.node, "_cy", {}).get("argtypes", {}).items())[skip:]
+                for (pn, pt), a in zip(ptypes, e.args):
+                    if pt in C_BITS:
+                        sites.setdefault((id(e.node), pn), [e.node, f"{callee.name}({pt} {pn} = {show(a)[:50]})", pt, []])[3].append((a, e.state))
+        for node, cons, ty, vals in sites.values():
+            judged = [(v, st) for v, st in vals if unit_source(v, f.qual)]
+            if not judged:
+                continue
+            n += 1
+            ctx.instance(rule)
+            ok = all(any(bounded(v, C_BITS[ty], fx) for fx in [st.facts]) for v, st in judged)
+            ctx.ob(rule, f.qual, cons, ok,
+                   f"a code unit of the text is converted to {ty} ({C_BITS[ty]} bits) on a path that does not bound it: C keeps the low "
+                   "bits, so a non-ASCII character is taken for the ASCII character it shares them with (the pure-Python quoter "
+                   "compares whole characters)", where(f, node), sample=f"value known < {1 << C_BITS[ty]} on the path")
+    ctx.instance(rule)
+    ctx.ob(rule, "<module _quoting_c>", "narrowing conversions of code units", True, sample=f"{n} conversion(s) of text units judged", nontrivial=False)
